@@ -8,6 +8,8 @@
                isAborted() true only if abort() was requested since the start, isFinished() true otherwise
      start with field "after" = g: the same Future object is started again: start() returns (event started) only
                after call g has completed
+     deleted   the Future's destructor returned / resdead: the result object embedded in the Future was destroyed:
+               only after done (the destructor waits for the call)
    Each call is executed exactly once.                                                                        *)
 EXTENDS Integers, Sequences, FiniteSets, TLC
 Ids == 0..63
@@ -26,6 +28,8 @@ Step(ev, s) ==
             /\ ev.execs = 1
             /\ (ev.ab => s.abortReq[ev.f]) /\ ev.fin = ~ev.ab
          THEN { [s EXCEPT !.st[ev.f] = "joined"] } ELSE {}
+    \* the destructor is a join: it returns only after the call has completed; the Future's result object lives until then
+    [] ev.op \in {"deleted", "resdead"} -> IF s.st[ev.f] \in {"none", "done", "joined"} THEN { s } ELSE {}
     \* at the end every started call has been executed and joined (or superseded by a restart that waited for it)
     [] ev.op = "end" -> IF ev.verdict = "done" /\ \E f \in Ids : s.st[f] \in {"started", "running"} THEN {} ELSE { s }
     [] OTHER -> { s }
